@@ -37,9 +37,22 @@ enum T {
     Fn(Vec<T>, Box<T>),
 }
 
-const LT: [&str; 3] = ["'static", "'a", "'b"];
-/// how the decoder prints them (forall<'a, 'b> => universe 1, indices 0 and 1)
-const LT_DECODED: [&str; 3] = ["'static", "'!1_0", "'!1_1"];
+/// 'static, two placeholders, and an UNKNOWN lifetime `'c` (bound by `exists<'c>` inside the `forall`)
+const LT: [&str; 4] = ["'static", "'a", "'b", "'c"];
+/// how the decoder prints them (forall<'a, 'b> => universe 1, indices 0 and 1; the unknown is the
+/// answer's only bound variable)
+const LT_DECODED: [&str; 4] = ["'static", "'!1_0", "'!1_1", "'^0.0"];
+
+fn mentions_unknown(t: &T) -> bool {
+    match t {
+        T::U32 => false,
+        T::Ref(_, l, p) => *l == 3 || mentions_unknown(p),
+        T::AdtL(_, l) => *l == 3,
+        T::AdtT(_, p) => mentions_unknown(p),
+        T::Tuple(v) => v.iter().any(mentions_unknown),
+        T::Fn(a, r) => a.iter().any(mentions_unknown) || mentions_unknown(r),
+    }
+}
 const ADTL: [(&str, V); 3] = [("Co", V::Co), ("Contra", V::Contra), ("Inv", V::Inv)];
 const ADTT: [(&str, V); 3] = [("CoT", V::Co), ("ContraT", V::Contra), ("InvT", V::Inv)];
 
@@ -100,7 +113,7 @@ fn walk(a: &T, b: &T, v: V, out: &mut BTreeSet<String>) -> bool {
 
 fn types(thorough: bool) -> Vec<T> {
     let mut leaves = vec![T::U32];
-    for l in 0..3u8 {
+    for l in 0..4u8 {
         leaves.push(T::Ref(false, l, Box::new(T::U32)));
         leaves.push(T::Ref(true, l, Box::new(T::U32)));
         for k in 0..3u8 {
@@ -156,7 +169,12 @@ pub fn run_c29(rep: &Report) -> i32 {
                     rep.count("pairs_with_lifetime_requirements", 1);
                 }
             }
-            let goal = format!("forall<'a, 'b> {{ Subtype({}, {}) }}", show(a), show(b));
+            let unknown = mentions_unknown(a) || mentions_unknown(b);
+            let goal = if unknown {
+                format!("forall<'a, 'b> {{ exists<'c> {{ Subtype({}, {}) }} }}", show(a), show(b))
+            } else {
+                format!("forall<'a, 'b> {{ Subtype({}, {}) }}", show(a), show(b))
+            };
             let peeled = match drive::peel(&program, &goal) {
                 Ok(p) => p,
                 Err(e) => {
@@ -181,7 +199,32 @@ pub fn run_c29(rep: &Report) -> i32 {
                                     })
                                     .cloned()
                                     .collect();
-                                if got != expect || !s.binders.is_empty() {
+                                // The unknown either stays unknown (one lifetime binder, ['c := '^0.0]) or —
+                                // where the variance dictates outlives in BOTH directions with some lifetime X —
+                                // is bound to X by the substitution, which states the same equality. The
+                                // remaining requirements are compared modulo that binding.
+                                let mut expect = expect.clone();
+                                let binders_ok = if unknown {
+                                    match s.args.first() {
+                                        Some(crate::drive::DArg::Lifetime(l)) if s.args.len() == 1 && l == "'^0.0" => s.binders.len() == 1,
+                                        Some(crate::drive::DArg::Lifetime(x)) if s.args.len() == 1 => {
+                                            let both = expect.contains(&format!("{}: '^0.0", x)) && expect.contains(&format!("'^0.0: {}", x));
+                                            expect = expect
+                                                .iter()
+                                                .map(|c| c.replace("'^0.0", x))
+                                                .filter(|c| {
+                                                    let mut it = c.split(": ");
+                                                    it.next() != it.next()
+                                                })
+                                                .collect();
+                                            both && s.binders.is_empty()
+                                        }
+                                        _ => false,
+                                    }
+                                } else {
+                                    s.binders.is_empty()
+                                };
+                                if got != expect || !binders_ok {
                                     rep.violation(Violation {
                                         property: "C29".into(),
                                         kind: "wrong-lifetime-requirements".into(),
@@ -231,7 +274,7 @@ pub fn run_c29(rep: &Report) -> i32 {
         states,
         tr,
         nt,
-        "every ordered pair of types of depth <= 2 (thorough: deeper nestings) built from shared and mutable references, fn pointers without higher-ranked lifetimes, tuples, ADTs over a lifetime or a type with each declared variance, with lifetimes from {'static, 'a, 'b}, posed as forall<'a,'b> { Subtype(A, B) } to both solvers (pairs of different structure are thinned 1:7); the answer must be Unique exactly when the structures agree and its outlives constraints, as a set modulo duplicates and trivial ones, must equal those dictated by the variance of each position; non-trivial = agreeing pairs with a non-empty requirement set",
+        "every ordered pair of types of depth <= 2 (thorough: deeper nestings) built from shared and mutable references, fn pointers without higher-ranked lifetimes, tuples, ADTs over a lifetime or a type with each declared variance, with lifetimes from {'static, the placeholders 'a and 'b, the unknown 'c}, posed as forall<'a,'b> { Subtype(A, B) } (forall<'a,'b> { exists<'c> { .. } } when 'c occurs) to both solvers (pairs of different structure are thinned 1:7); the answer must be Unique exactly when the structures agree and its outlives constraints, as a set modulo duplicates and trivial ones, must equal those dictated by the variance of each position; non-trivial = agreeing pairs with a non-empty requirement set",
         true,
         &[
             "lifetime-leaf convention is chalk's documented one (covariant position (x,y) requires y: x; a reference's lifetime is a contravariant position), as blessed by the pinned tests ref_lifetime_variance and struct_lifetime_variance",
